@@ -46,6 +46,11 @@ func SignJSON(signingName string, keyID KeyID, privateKey ed25519.PrivateKey, me
 	if !utf8.Valid(message) {
 		return nil, fmt.Errorf("gomatrixserverlib: cannot sign JSON that is not valid UTF-8")
 	}
+	// The same goes for the name and the key ID the signature is filed under:
+	// they become JSON member names.
+	if !utf8.ValidString(signingName) || !utf8.ValidString(string(keyID)) {
+		return nil, fmt.Errorf("gomatrixserverlib: signing name and key ID must be valid UTF-8")
+	}
 	// Existing signatures are carried over verbatim: they are not ours to decode.
 	// Only the members named exactly "signatures" and "unsigned" are special.
 	var preserve struct {
